@@ -1,14 +1,197 @@
 /-
-  C09 — KAURI trees respect their structural limits.  (Work in progress: invariants of the fit
-  state machine; the first theorems are about `Tree.addChild`.)
+  C09 — KAURI trees respect their structural limits and reproduce their own partition.
+
+  The fit loop of `gemclus/tree/kauri.py` is the state machine `Model.Kauri.fitStep`.  `KauriC09.SplitOK` is the
+  post-condition of `find_best_split` (for a reported positive gain); `KauriC09.FullInv` bundles the invariants
+  `Inv` (structure), `InvSamples` (sample counts), `InvRoute` (tree vs data) and `TreeWF` (array-encoded tree).
+  The theorems below hold for all data sizes `n`, all data `X`, all parameters, all number types `α`
+  (no order law on `RealLike.le` is needed: the loop and `predict` use the same Boolean test).
 -/
-import GemVerif.Model.Kauri
+import GemVerif.Lemmas.KauriC09
 
 namespace GemVerif.Props.C09
-open GemVerif Model.Kauri
+open GemVerif Model.Kauri KauriC09
 
 /-- Each split adds exactly two nodes. -/
 theorem addChild_nNodes {α : Type} [RealLike α] (t : Tree α) (f : Nat) (s : Split α) :
     (t.addChild f s).nNodes = t.nNodes + 2 := rfl
+
+/-! ### the invariant is inductive -/
+
+/-- The initial state of `Kauri.fit` satisfies the structural invariant, for every `n` and every parameter setting. -/
+theorem inv_init {α : Type} [RealLike α] (n : Nat) (p : Params) : Inv p (FitState.init n p : FitState α) :=
+  KauriC09.inv_init n p
+
+/-- The initial state satisfies all invariants once the data has at least one and at least `min_samples_leaf` rows
+    (`validate_data(ensure_min_samples=min_samples_leaf)`, `min_samples_leaf ≥ 1`). -/
+theorem fullInv_init {α : Type} [RealLike α] (X : Nat → Nat → α) (n : Nat) (p : Params) (hn : 1 ≤ n)
+    (hmin : p.minLeaf ≤ n) : FullInv X p (FitState.init n p : FitState α) :=
+  KauriC09.fullInv_init X n p hn hmin
+
+/-- One loop body preserves the structural invariant: loop guard + post-condition of `find_best_split`. -/
+theorem applySplit_preserves {α : Type} [RealLike α] {X : Nat → Nat → α} {p : Params} {s : FitState α} {b : Split α}
+    (hI : Inv p s) (hc : s.continues p = true) (hb : SplitOK X p s b) : Inv p (applySplit X p s b) :=
+  KauriC09.applySplit_preserves hI hc hb
+
+/-- One loop iteration (guard test, gain test, split) preserves all invariants. -/
+theorem stepWith_preserves {α : Type} [RealLike α] {X : Nat → Nat → α} {p : Params} {s : FitState α} {b : Split α}
+    (h : FullInv X p s) (hb : s.continues p = true → RealLike.lt 0 b.gain = true → SplitOK X p s b) :
+    FullInv X p (stepWith X p s b) :=
+  KauriC09.stepWith_preserves h hb
+
+/-- `fitStep` is `stepWith` applied to the answer of `findBestSplit` (the model's loop, unchanged). -/
+theorem fitStep_eq_stepWith {α : Type} [RealLike α] (κ X : Nat → Nat → α) (p : Params) (s : FitState α)
+    (features : List Nat) :
+    fitStep κ X p s features =
+      stepWith X p s (findBestSplit κ X s.toExplore s.asg s.nClusters p.maxClusters s.nLeaves p.minLeaf features) :=
+  rfl
+
+/-- `fit_invariant`: every state reached by the loop on any sequence of `find_best_split` answers, each meeting the
+    post-condition in the state where it is applied, satisfies all invariants. -/
+theorem fit_invariant {α : Type} [RealLike α] {X : Nat → Nat → α} {n : Nat} {p : Params} (hn : 1 ≤ n)
+    (hmin : p.minLeaf ≤ n) (bs : List (Split α)) (hok : SplitsOK X p (FitState.init n p) bs) :
+    FullInv X p (fitWith X n p bs) :=
+  KauriC09.fitWith_inv hn hmin bs hok
+
+/-- The same for the model's `fit` (any recorded feature draws), under the hypothesis that `findBestSplit` meets
+    its post-condition `FindBestSplitSpec` (decided by the exact differential check of C08/C09, not proved here). -/
+theorem fit_invariant_of_spec {α : Type} [RealLike α] {κ X : Nat → Nat → α} {n : Nat} {p : Params} (hn : 1 ≤ n)
+    (hmin : p.minLeaf ≤ n) (hspec : FindBestSplitSpec κ X p) (draws : List (List Nat)) :
+    FullInv X p (fit κ X n p draws) :=
+  KauriC09.fit_inv hn hmin hspec draws
+
+/-! ### the clauses of the property, for any state that satisfies the invariants -/
+
+/-- The tree has `2·leaves − 1` nodes, `leaves` being the number of nodes without children; this number is the
+    loop's `n_leaves`. -/
+theorem node_count {α : Type} [RealLike α] {X : Nat → Nat → α} {p : Params} {s : FitState α} (h : FullInv X p s) :
+    s.tree.nNodes = 2 * (leafNodes s.tree).length - 1 ∧ (leafNodes s.tree).length = s.nLeaves ∧
+      s.tree.left.size = s.tree.nNodes := by
+  have e := leafNodes_length h.inv h.tree
+  exact ⟨by rw [e]; exact h.inv.nNodes_eq, e, h.inv.size_left⟩
+
+/-- At most `max_leaves` leaves (`max_leaves ≥ 2`, or `n ≥ 1` when `None`). -/
+theorem leaves_le_max_leaves {α : Type} [RealLike α] {X : Nat → Nat → α} {p : Params} {s : FitState α}
+    (h : FullInv X p s) (hL : 1 ≤ p.maxLeaves) : (leafNodes s.tree).length ≤ p.maxLeaves := by
+  rw [leafNodes_length h.inv h.tree]
+  have := h.inv.nLeaves_le; omega
+
+/-- Every node has depth at most `max_depth` (`max_depth ≥ 1`, or `n ≥ 1` when `None`).  Without the hypothesis the
+    bound is `max max_depth 1`: the root is explored whatever `max_depth` is. -/
+theorem depth_le_max_depth {α : Type} [RealLike α] {X : Nat → Nat → α} {p : Params} {s : FitState α}
+    (h : FullInv X p s) (hD : 1 ≤ p.maxDepth) (k : Nat) (hk : k < s.tree.nNodes) :
+    s.tree.depths[k]! ≤ p.maxDepth := by
+  have := h.inv.depth_le k hk; omega
+
+/-- The entries of `depths` are the depths of the nodes: 0 at the root, one more at the two children of a node;
+    the children of node `k` are two consecutive later nodes, leaves have no child, threshold or feature. -/
+theorem tree_well_formed {α : Type} [RealLike α] {X : Nat → Nat → α} {p : Params} {s : FitState α}
+    (h : FullInv X p s) : TreeWF s.tree := h.tree
+
+/-- At most `max_clusters` clusters, and `labels_` takes exactly the values `0 .. n_clusters − 1`. -/
+theorem clusters_le_max_clusters {α : Type} [RealLike α] {X : Nat → Nat → α} {p : Params} {s : FitState α}
+    (h : FullInv X p s) (hK : 1 ≤ p.maxClusters) :
+    s.nClusters ≤ p.maxClusters ∧ ∀ c, c ∈ s.labels ↔ c < s.nClusters := by
+  refine ⟨?_, labels_range h.inv h.samples⟩
+  have := h.inv.nClusters_le; omega
+
+/-- Every leaf holds at least `min_samples_leaf` samples and at least one. -/
+theorem leaf_sizes {α : Type} [RealLike α] {X : Nat → Nat → α} {p : Params} {s : FitState α} (h : FullInv X p s)
+    (l : Nat) (hl : l < s.nLeaves) :
+    p.minLeaf ≤ (s.asg.samplesOfLeaf l).length ∧ s.asg.samplesOfLeaf l ≠ [] :=
+  ⟨h.samples.leaf_size l hl, h.samples.leaf_nonempty l hl⟩
+
+/-- No node with fewer than `min_samples_split` samples is split: the leaf cut by an admissible split holds at least
+    `min_samples_split` samples, sits strictly above the depth limit and is a leaf of the tree. -/
+theorem split_leaf_size {α : Type} [RealLike α] {X : Nat → Nat → α} {p : Params} {s : FitState α} {b : Split α}
+    (h : FullInv X p s) (hb : SplitOK X p s b) :
+    p.minSplit ≤ (members s b).length ∧ s.tree.depths[father s b]! < max p.maxDepth 1 ∧
+      s.tree.left[father s b]! = -1 :=
+  ⟨h.samples.explore_size _ hb.leaf_mem, h.inv.explore_depth _ hb.leaf_mem,
+    h.inv.l2n_leaf _ (h.inv.explore_lt _ hb.leaf_mem)⟩
+
+/-- Thresholds are observed feature values: every internal node tests a column `f ≥ 0` against `X[i, f]` for some
+    training sample `i`. -/
+theorem thresholds_observed {α : Type} [RealLike α] {X : Nat → Nat → α} {p : Params} {s : FitState α}
+    (h : FullInv X p s) (k : Nat) (hk : k < s.tree.nNodes) (hint : s.tree.left[k]! ≠ -1) :
+    ∃ f : Int, 0 ≤ f ∧ s.tree.feat[k]! = some f ∧ ∃ i, i < s.asg.n ∧ s.tree.thr[k]! = some (X i f.toNat) :=
+  h.route.thr_obs k hk hint
+
+/-- Each leaf belongs to exactly one cluster: leaf ids correspond one-to-one to the leaf nodes of the tree, and the
+    node of a leaf carries the cluster of the leaf, which is the label of all its samples. -/
+theorem leaf_has_one_cluster {α : Type} [RealLike α] {X : Nat → Nat → α} {p : Params} {s : FitState α}
+    (h : FullInv X p s) :
+    (∀ l, l < s.nLeaves → s.tree.left[s.leaf2node[l]!]! = -1 ∧
+      s.tree.target[s.leaf2node[l]!]! = (s.asg.clusterOf[l]! : Int)) ∧
+    (∀ l l', l < s.nLeaves → l' < s.nLeaves → s.leaf2node[l]! = s.leaf2node[l']! → l = l') ∧
+    (∀ k, k < s.tree.nNodes → s.tree.left[k]! = -1 → ∃ l, l < s.nLeaves ∧ s.leaf2node[l]! = k) ∧
+    (∀ i, i < s.asg.n → s.asg.leafOf[i]! < s.nLeaves ∧
+      s.asg.clusterOfSample i = s.asg.clusterOf[s.asg.leafOf[i]!]!) :=
+  ⟨fun l hl => ⟨h.inv.l2n_leaf l hl, h.inv.target_eq l hl⟩, h.inv.l2n_inj, h.inv.l2n_surj,
+    fun i hi => ⟨h.inv.leafOf_lt i hi, rfl⟩⟩
+
+/-- `predict_train_eq_labels`, one sample: routing training sample `i` through the tree returns its label, for any
+    recursion budget `fuel ≥ n_leaves − 1` (the driver uses `n_nodes + 1`). -/
+theorem predict_train_sample {α : Type} [RealLike α] {X : Nat → Nat → α} {p : Params} {s : FitState α}
+    (h : FullInv X p s) (i : Nat) (hi : i < s.asg.n) (fuel : Nat) (hfuel : s.nLeaves ≤ fuel + 1) :
+    s.tree.route (X i) fuel 0 = (s.asg.clusterOfSample i : Int) := by
+  apply route_train h.inv h.route i hi fuel
+  have := h.inv.depth_lt_leaves _ (h.inv.l2n_lt _ (h.inv.leafOf_lt i hi))
+  omega
+
+/-- `predict_train_eq_labels`: `predict(X_train) = labels_`. -/
+theorem predict_train_eq_labels {α : Type} [RealLike α] {X : Nat → Nat → α} {p : Params} {s : FitState α}
+    (h : FullInv X p s) (fuel : Nat) (hfuel : s.nLeaves ≤ fuel + 1) :
+    (List.range s.asg.n).map (fun i => s.tree.route (X i) fuel 0) = s.labels.map fun (c : Nat) => (c : Int) := by
+  unfold FitState.labels
+  rw [List.map_map]
+  apply List.map_congr_left
+  intro i hi
+  exact predict_train_sample h i (List.mem_range.1 hi) fuel hfuel
+
+/-- The path of training sample `i` from the root to the node of its leaf takes the left branch exactly where
+    `X[i, feature] <= threshold` (`Reaches`), and has length the depth of that node. -/
+theorem train_path {α : Type} [RealLike α] {X : Nat → Nat → α} {p : Params} {s : FitState α} (h : FullInv X p s)
+    (i : Nat) (hi : i < s.asg.n) :
+    Reaches s.tree (X i) (s.leaf2node[s.asg.leafOf[i]!]!) (s.tree.depths[s.leaf2node[s.asg.leafOf[i]!]!]!) :=
+  h.route.reach i hi
+
+/-- All clauses for the fitted state of the model's `fit`, under the natural parameter ranges of `Kauri`
+    (`n ≥ 1`, `min_samples_leaf ≤ n`, `max_leaves, max_depth, max_clusters ≥ 1`) and `FindBestSplitSpec`. -/
+theorem fitted_tree_limits {α : Type} [RealLike α] {κ X : Nat → Nat → α} {n : Nat} {p : Params} (hn : 1 ≤ n)
+    (hmin : p.minLeaf ≤ n) (hL : 1 ≤ p.maxLeaves) (hD : 1 ≤ p.maxDepth) (hK : 1 ≤ p.maxClusters)
+    (hspec : FindBestSplitSpec κ X p) (draws : List (List Nat)) :
+    let s := fit κ X n p draws
+    s.tree.nNodes = 2 * (leafNodes s.tree).length - 1 ∧ (leafNodes s.tree).length ≤ p.maxLeaves ∧
+      (∀ k, k < s.tree.nNodes → s.tree.depths[k]! ≤ p.maxDepth) ∧ s.nClusters ≤ p.maxClusters ∧
+      (∀ c, c ∈ s.labels ↔ c < s.nClusters) ∧
+      (∀ l, l < s.nLeaves → p.minLeaf ≤ (s.asg.samplesOfLeaf l).length) ∧
+      (List.range s.asg.n).map (fun i => s.tree.route (X i) (s.tree.nNodes + 1) 0) = s.labels.map fun (c : Nat) => (c : Int) := by
+  intro s
+  have h : FullInv X p s := KauriC09.fit_inv hn hmin hspec draws
+  have hc := clusters_le_max_clusters h hK
+  refine ⟨(node_count h).1, leaves_le_max_leaves h hL, fun k hk => depth_le_max_depth h hD k hk, hc.1, hc.2,
+    fun l hl => (leaf_sizes h l hl).1, predict_train_eq_labels h _ ?_⟩
+  have := h.inv.nNodes_eq; have := h.inv.nLeaves_pos; omega
+
+/-! ### the hypotheses are satisfiable: a two-split run on three samples over `ℚ` -/
+
+/-- `SplitOK` holds for a star split of the root of the initial state. -/
+example : SplitOK Example.X Example.p (FitState.init 3 Example.p) Example.b1 :=
+  ⟨by decide, by decide, by decide, by decide, by decide, by decide, by decide, by decide, by decide, by decide,
+    by decide, by decide, ⟨0, by decide, by decide⟩⟩
+
+/-- `SplitsOK` (hypothesis of `fit_invariant`) holds for a run with two applied splits. -/
+example : SplitsOK Example.X Example.p (FitState.init 3 Example.p) [Example.b1, Example.b2] :=
+  ⟨fun _ _ => ⟨by decide, by decide, by decide, by decide, by decide, by decide, by decide, by decide, by decide,
+      by decide, by decide, by decide, ⟨0, by decide, by decide⟩⟩,
+   fun _ _ => ⟨by decide, by decide, by decide, by decide, by decide, by decide, by decide, by decide, by decide,
+      by decide, by decide, by decide, ⟨1, by decide, by decide⟩⟩, trivial⟩
+
+/-- that run is not trivial: both splits are applied (3 leaves, 5 nodes, 2 clusters, labels `[0, 0, 1]`) -/
+example : (fitWith Example.X 3 Example.p [Example.b1, Example.b2]).nLeaves = 3 ∧
+    (fitWith Example.X 3 Example.p [Example.b1, Example.b2]).tree.nNodes = 5 ∧
+    (fitWith Example.X 3 Example.p [Example.b1, Example.b2]).nClusters = 2 ∧
+    (fitWith Example.X 3 Example.p [Example.b1, Example.b2]).labels = [0, 0, 1] := by decide
 
 end GemVerif.Props.C09
